@@ -66,6 +66,9 @@ type Obligation struct {
 	Model   map[string]string
 	Output  string
 	gen     *Gen
+	// bounded stand-ins only
+	Evals      int  // cases enumerated
+	Reproduced bool // the failure is a real failing input of the real code
 }
 
 type InputTerm struct {
@@ -236,6 +239,9 @@ func (g *Gen) addObl(kind, name string, props []string, guard, goal string, extr
 
 // query assembles the SMT-LIB text for an obligation.
 func (o *Obligation) query(getModel bool) string {
+	if o.gen == nil && o.Kind == "bounded" {
+		return "; bounded stand-in (exhaustive enumeration on the real code), not an SMT query\n; " + o.Name + "\n; " + o.Src + "\n"
+	}
 	if o.gen == nil {
 		return "; obligation decided by the generator's ownership dataflow, not by SMT\n; " + o.Name + "\n; " + o.Src + "\n; " + o.Output + "\n"
 	}
